@@ -5,7 +5,8 @@ TI = {'TI_AWAIT_CANCELED': '_ZTIN5cocls24await_canceled_exceptionE', 'TI_VALUE_N
 RC_LK = r'^cocls::awaiter::resume_chain_lk\(cocls::awaiter\*\)$'
 SN = r'^cocls::suspend_point<void>::suspend_now\(\)$'
 LIBS = ['rt_core.c', 'rt_atomic_protF.c']
-DEFS = ['CV_F_STATE_AT(p) (((FUT *)(p))->base_future_common._state)', 'CV_F_VALUE_AT(p) (*(cv_i32 *)&((FUT *)(p))->f1)', 'CV_F_EXC_AT(p) (*(void **)&((FUT *)(p))->f1)']
+# CV_REG_STACK: registered promise / future = locals of the harness, owner cell assigned (see h_f.c)
+DEFS = ['CV_F_STATE_AT(p) (((FUT *)(p))->base_future_common._state)', 'CV_F_VALUE_AT(p) (*(cv_i32 *)&((FUT *)(p))->f1)', 'CV_F_EXC_AT(p) (*(void **)&((FUT *)(p))->f1)', 'CV_REG_STACK 1']
 def unit(name, alias, rx, names=None, boundary=(), **kw):
     nm = {alias: rx}; nm.update(names or {})
     d = dict(name=name, driver='c01_future.cpp', roots=[rx], names=nm, names_opt={'aw_resume_chain_lk': RC_LK, 'sp_suspend_now': SN}, types=TYPES, globals=GLOBALS, boundary=[RC_LK, SN] + list(boundary), lib=LIBS,
@@ -38,6 +39,83 @@ UNITS = [
     plain('ab_resume', 'ab_resume', r'^cocls::future<int>::awaitable_bool::await_resume\(\)$'),
 ]
 
+# ---- the other value types of the quantifier (drivers/c01_types.cpp; contracts: f_spec.h re-bound through the type aliases + t_spec.h) ----
+TLIBS = ['rt_core.c', 'model_c01_payload.c', 'rt_atomic_protF.c']
+TSPEC = ['C01/f_spec.h', 'C01/h_f.c', 'C01/t_spec.h']
+TDEFS = list(DEFS)
+def _ttypes(T, **extra):
+    Td = T.replace('&', ' &')           # debug-info spelling of the template argument
+    d = dict(TYPES); d.update({'ABOOL': 'cocls::future<%s>::awaitable_bool' % Td, 'PROM': 'cocls::promise<%s>' % Td, 'FUT': 'cocls::future<%s>' % Td}); d.update(extra)
+    if T != 'void': d.pop('ABOOL')        # has_value() is instantiated for int and void only
+    return d
+import re
+def _rx(T): return re.escape(T)
+def tunit(pfx, T, name, alias, rx, harness=None, is_plain=False, types=None, defines=None, **kw):
+    """a unit for value type T.  alias = contract name (an alias of f_spec.h re-uses that contract and its harness h_<name>)"""
+    rx = rx.replace('<T>', '<' + _rx(T) + '>')
+    d = (plain if is_plain else unit)(pfx + '_' + name, alias, rx)
+    d.update(driver='c01_types.cpp', types=_ttypes(T, **(types or {})), lib=TLIBS, spec=TSPEC, harness=harness or ('h_' + name), defines=defines or TDEFS, value_type=T)
+    d.update(kw)
+    return d
+def _common(pfx, T, **kw):
+    """payload-independent members: same contracts and harnesses as for int"""
+    return [
+        tunit(pfx, T, 'claim', 'pr_claim', r'^cocls::promise<T>::claim\(\) const$', is_plain=True, **kw),
+        tunit(pfx, T, 'set_drop', 'pr_set_drop', r'^cocls::promise<T>::set_value\(cocls::DropTag\)$', **kw),
+        tunit(pfx, T, 'set_exc', 'pr_set_exc', r'^cocls::promise<T>::set_exception\(std::__exception_ptr::exception_ptr\)$', **kw),
+        tunit(pfx, T, 'dtor', 'pr_dtor', r'^cocls::promise<T>::~promise\(\)$', **kw),
+        tunit(pfx, T, 'call_drop', 'tx_call_drop', r'^cocls::suspend_point<bool> cocls::promise<T>::operator\(\)<cocls::DropTag>\(cocls::DropTag&&\)$', harness='h_tx_call_drop', **kw),
+        tunit(pfx, T, 'fu_ctor', 'fu_ctor', r'^cocls::future<T>::future\(\)$', is_plain=True, **kw),
+        tunit(pfx, T, 'get_promise', 'fu_get_promise', r'^cocls::future<T>::get_promise\(\)$', is_plain=True, **kw),
+    ]
+MA_B = [r'^cocls::promise<void>::set_value\(cocls::DropTag\)$', r'^cocls::promise<void>::claim\(\) const$', r'^cocls::suspend_point<bool>::~suspend_point\(\)$']
+UNITS += _common('v', 'void') + [
+    tunit('v', 'void', 'set_value', 'tv_set_value', r'^cocls::suspend_point<bool> cocls::promise<T>::set_value<>\(\)$', harness='h_tv_set_value'),
+    tunit('v', 'void', 'call_value', 'tv_call_value', r'^cocls::suspend_point<bool> cocls::promise<T>::operator\(\)<>\(\)$', harness='h_tv_call_value'),
+    tunit('v', 'void', 'move_ctor', 'pr_move_ctor', r'^cocls::promise<T>::promise\(cocls::promise<void>&&\)$', is_plain=True),
+    tunit('v', 'void', 'move_assign', 'pr_move_assign', r'^cocls::promise<T>::operator=\(cocls::promise<void>&&\)$', is_plain=True, harness='h_move_assign', lib=['rt_core.c', 'rt_atomic_seq.c'],
+          names_opt={'ma_set_drop_stub': MA_B[0], 'ma_claim_stub': MA_B[1], 'ma_sp_dtor_stub': MA_B[2]}, boundary=MA_B),
+    tunit('v', 'void', 'bool', 'pr_bool', r'^cocls::promise<T>::operator bool\(\) const$', is_plain=True),
+    tunit('v', 'void', 'value', 'tv_value', r'^cocls::future<T>::value\(\)$', is_plain=True, harness='h_tv_value', globals=dict(GLOBALS, **TI)),
+    tunit('v', 'void', 'fu_dtor', 'fu_dtor', r'^cocls::future<T>::~future\(\)$', is_plain=True),
+    tunit('v', 'void', 'ab_resume', 'ab_resume', r'^cocls::future<T>::awaitable_bool::await_resume\(\)$', is_plain=True),
+]
+
+# payload accessors for the snapshot the exchange primitive takes at the instant of resolution (lib/model_c01_payload.c)
+_ST0 = 'CV_F_STATE0_AT(p) (((FUT *)(p))->base_future_common._state)'
+_EXC = 'CV_F_EXC_AT(p) (*(void **)&((FUT *)(p))->f1)'
+MO_DEFS = [_ST0, _EXC, 'CV_F_VALUE_AT(p) (((MO *)&((FUT *)(p))->f1)->v)', 'CV_F_AUX0_AT(p) (((MO *)&((FUT *)(p))->f1)->moved)', 'CV_REG_STACK 1']
+CNT_DEFS = [_ST0, _EXC, 'CV_F_VALUE_AT(p) (((CNT *)&((FUT *)(p))->f1)->v)', 'CV_F_AUX0_AT(p) ((cv_i64)*N_CTOR + (cv_i64)*N_COPY + (cv_i64)*N_MOVE)', 'CV_F_AUX1_AT(p) (*N_DTOR)', 'C01_CNT 1', 'CV_REG_STACK 1']
+THR_DEFS = [_ST0, _EXC, 'CV_F_VALUE_AT(p) (((THR *)&((FUT *)(p))->f1)->v)', 'CV_F_AUX0_AT(p) (*THR_LIVE)', 'C01_THR 1', 'CV_REG_STACK 1']
+CNT_G = dict(GLOBALS, N_CTOR='c01_n_ctor', N_COPY='c01_n_copy', N_MOVE='c01_n_move', N_DTOR='c01_n_dtor')
+THR_G = dict(GLOBALS, THR_FLAG='c01_thr_flag', THR_LIVE='c01_thr_live', TI_THR_ERROR='_ZTI13c01_thr_error')
+SPB_ = r'^cocls::suspend_point<bool> '
+UNITS += _common('mo', 'c01_mo') + [
+    tunit('mo', 'c01_mo', 'set_value', 'tm_set_value', SPB_ + r'cocls::promise<T>::set_value<c01_mo>\(c01_mo&&\)$', harness='h_tm_set_value', types={'MO': 'c01_mo'}, defines=MO_DEFS),
+    tunit('mo', 'c01_mo', 'call_value', 'tm_call_value', SPB_ + r'cocls::promise<T>::operator\(\)<c01_mo>\(c01_mo&&\)$', harness='h_tm_call_value', types={'MO': 'c01_mo'}, defines=MO_DEFS),
+    tunit('mo', 'c01_mo', 'value', 'tm_value', r'^cocls::future<T>::value\(\)$', is_plain=True, harness='h_tm_value', types={'MO': 'c01_mo'}, defines=MO_DEFS, globals=dict(GLOBALS, **TI)),
+    tunit('mo', 'c01_mo', 'fu_dtor', 'fu_dtor', r'^cocls::future<T>::~future\(\)$', is_plain=True, types={'MO': 'c01_mo'}, defines=MO_DEFS),
+]
+UNITS += _common('ref', 'int&') + [
+    tunit('ref', 'int&', 'set_value', 'tr_set_value', SPB_ + r'cocls::promise<T>::set_value<int&>\(int&\)$', harness='h_tr_set_value'),
+    tunit('ref', 'int&', 'call_value', 'tr_call_value', SPB_ + r'cocls::promise<T>::operator\(\)<int&>\(int&\)$', harness='h_tr_call_value'),
+    tunit('ref', 'int&', 'value', 'tr_value', r'^cocls::future<T>::value\(\)$', is_plain=True, harness='h_tr_value', globals=dict(GLOBALS, **TI)),
+    tunit('ref', 'int&', 'fu_dtor', 'fu_dtor', r'^cocls::future<T>::~future\(\)$', is_plain=True),
+]
+_CK = dict(types={'CNT': 'c01_cnt'}, defines=CNT_DEFS, globals=CNT_G)
+UNITS += _common('cnt', 'c01_cnt') + [
+    tunit('cnt', 'c01_cnt', 'call_copy', 'tc_call_copy', SPB_ + r'cocls::promise<T>::operator\(\)<c01_cnt const&>\(c01_cnt const&\)$', harness='h_tc_call_copy', **_CK),
+    tunit('cnt', 'c01_cnt', 'call_move', 'tc_call_move', SPB_ + r'cocls::promise<T>::operator\(\)<c01_cnt>\(c01_cnt&&\)$', harness='h_tc_call_move', **_CK),
+    tunit('cnt', 'c01_cnt', 'call_emplace', 'tc_call_emplace', SPB_ + r'cocls::promise<T>::operator\(\)<int&>\(int&\)$', harness='h_tc_call_emplace', **_CK),
+    tunit('cnt', 'c01_cnt', 'value', 'tc_value', r'^cocls::future<T>::value\(\)$', is_plain=True, harness='h_tc_value', types={'CNT': 'c01_cnt'}, defines=CNT_DEFS, globals=dict(CNT_G, **TI)),
+    tunit('cnt', 'c01_cnt', 'fu_dtor', 'tc_fu_dtor', r'^cocls::future<T>::~future\(\)$', is_plain=True, harness='h_tc_fu_dtor', **_CK),
+]
+_TK = dict(types={'THR': 'c01_thr'}, defines=THR_DEFS, globals=THR_G)
+UNITS += [
+    tunit('thr', 'c01_thr', 'call_emplace', 'tt_call_emplace', SPB_ + r'cocls::promise<T>::operator\(\)<int&>\(int&\)$', harness='h_tt_call_emplace', replay=dict(src='c01_throwing_ctor.cpp', mode='emplace', flags=['-DNDEBUG', '-g']), **_TK),
+    tunit('thr', 'c01_thr', 'call_copy', 'tt_call_copy', SPB_ + r'cocls::promise<T>::operator\(\)<c01_thr const&>\(c01_thr const&\)$', harness='h_tt_call_copy', replay=dict(src='c01_throwing_ctor.cpp', mode='copy', flags=['-DNDEBUG', '-g']), **_TK),
+]
+
 # "its state never changes afterwards" also binds the waiters' side: a subscription must never be pushed on top of the ready marker.
 # That clause lives in the protocol-F primitive and is exercised by the subscription units of C02, re-run here.
 import importlib.util as _ilu, os as _os, copy as _copy
@@ -51,9 +129,9 @@ def _c02(names):
 UNITS += _c02(['subscribe_check_ready', 'co_await_suspend', 'co_await_suspend_fn', 'co_sync'])
 META = dict(
     level='proof',
-    level_text='promise<int>::claim, set_value/operator()(value), set_value(drop), set_exception, ~promise, promise(promise&&), operator bool, future<int>::future(), get_promise, ready/pending/initialized, value() (complete outcome map incl. the exception types thrown), ~future, has_value().await_resume are each verified against a contract taken from the property statement, thread-modularly: every atomic instruction runs through protocol-F primitives that first let the environment act (another caller may take the right to resolve at any instant, other threads may subscribe, another winner may resolve) and then check the step against the protocol (only the token holder marks the future ready, never twice, never a plain store on a shared cell). Success <=> this call took the token and swung the slot; the payload at the instant of resolution and at return is exactly the argument; failure leaves no trace (no RMW on the slot, payload untouched, empty suspend point); a destroyed armed promise resolves to no-value; value() maps no-value to await_canceled_exception. The single-winner lemma is an unbounded loop over the claim primitive.',
-    level_note='Trusted: protocol-F primitives and the rely they encode (lib/rt_atomic_protF.c), rely/guarantee soundness argument (DESIGN 3.5), clang front end, ir2c. awaiter::resume_chain_lk (walk over the detached waiters) and suspend_point::suspend_now are abstract callees here (subjects of C02 / C05). Covered value type: int (exception_ptr payload for the exception path); promise<void>, move-only, reference and instance-counted T are not instantiated yet. promise::operator=(promise&&) needs two registered cells and is not covered. Documented misuse excluded by precondition: destroying a promise object that other threads can still call.',
+    level_text='For every value type of the quantifier - int, void, a move-only type (deleted copy, int + moved-from flag), a reference type (int&), an instance-counted type (all constructors / the destructor counted) - promise<T>::claim, set_value / operator()(value) [for the counted type: by copy, by move and in place from an int], set_value(drop), set_exception, ~promise, future<T>::future(), get_promise, value() (complete outcome map incl. the exception types thrown) and ~future are each verified against a contract taken from the property statement (additionally for int and void: promise(promise&&), operator=(promise&&), operator bool, has_value().await_resume; for int: ready/pending/initialized), thread-modularly: every atomic instruction runs through protocol-F primitives that first let the environment act (another caller may take the right to resolve at any instant, other threads may subscribe, another winner may resolve) and then check the step against the protocol (only the token holder marks the future ready, never twice, never a plain store on a shared cell). Success <=> this call took the token and swung the slot; the payload at the instant of resolution and at return is exactly the argument (int: the value; void: the tag; move-only: the integer carried, stored object not moved-from, the argument moved-from; reference: the identity of the referenced object, the object untouched; counted: the integer carried, exactly one instance constructed and none destroyed at both instants); failure leaves no trace (no RMW on the slot, payload untouched, empty suspend point, a move-only argument is NOT moved from, nothing constructed or destroyed); a destroyed armed promise resolves to no-value; value() maps no-value to await_canceled_exception and a stored value to the stored object itself (reference: the object the winner referred to); ~future destroys the stored value exactly once and only if one was constructed. The payload-independent members of the other value types run under the SAME contracts and harnesses as for int (type aliases re-bound per unit). The single-winner lemma is an unbounded loop over the claim primitive. Value type with a throwing constructor (c01_thr, nondeterministic flag): the clause "when a resolving call ends - by return or by exception - either the future is resolved or a promise still holds the right to resolve" FAILS on promise::set_value (claims before it constructs; finding C01-FINDING-throwing-ctor, native replay replay/c01_throwing_ctor.cpp, candidate fix specs/C01/fix_throwing_ctor.diff with which both units pass).',
+    level_note='Trusted: protocol-F primitives and the rely they encode (lib/rt_atomic_protF.c), the payload snapshot hooks (lib/model_c01_payload.c: evaluate accessor macros at the instant of the resolving exchange), rely/guarantee soundness argument (DESIGN 3.5), clang front end, ir2c. awaiter::resume_chain_lk (walk over the detached waiters) and suspend_point::suspend_now are abstract callees here (subjects of C02 / C05). The value types other than int and void are test payloads defined in drivers/c01_types.cpp (their constructors are translated and executed, not modelled). Not covered: promise(promise&&) / operator= / operator bool for the move-only, reference and counted instantiations (payload-independent template text, covered for int and void); the waiter-side units (C02_*) and ready/pending/initialized are type-independent code of future_common / awaiter and run once (int); promise::set_value_and_suspend / drop_and_suspend (refer to a member future::resolve_resume that does not exist - never instantiable). promise::operator=(promise&&) is a forwarder unit (sequential atomics, set_value(drop) and claim() abstract). Documented misuse excluded by precondition: destroying a promise object that other threads can still call. Registered objects are locals of the harness with the owner cell assigned (CV_REG_STACK, specs/C01/h_f.c): symbolic execution resolves the claimed pointer to the registered future itself (5 s per resolver unit instead of 140 s / out of memory).',
     technique='CBMC code contracts enforced via goto-instrument --dfcc on the C translation of clang IR of future.h; atomic instructions replaced by rely/guarantee protocol primitives with ghost tokens (thread-modular); lemma harness with loop contract',
-    trusted_base=['protocol-F atomic primitives and environment model (lib/rt_atomic_protF.c)', 'abstract callees: awaiter::resume_chain_lk, suspend_point::suspend_now (recording stubs, specs/C01/f_spec.h)', 'exception_ptr reference counting stubs (lib/rt_core.c)'],
-    assumptions=['rely/guarantee soundness: if every step of every thread conforms, every interleaving satisfies the protocol invariant (argued, DESIGN 3.5)', 'atomic RMWs on one location are totally ordered (C++ coherence)', 'T = int; other value types not instantiated'],
+    trusted_base=['protocol-F atomic primitives and environment model (lib/rt_atomic_protF.c)', 'payload snapshot hooks (lib/model_c01_payload.c)', 'abstract callees: awaiter::resume_chain_lk, suspend_point::suspend_now (recording stubs, specs/C01/f_spec.h)', 'exception model and exception_ptr reference counting stubs (lib/rt_core.c)'],
+    assumptions=['rely/guarantee soundness: if every step of every thread conforms, every interleaving satisfies the protocol invariant (argued, DESIGN 3.5)', 'atomic RMWs on one location are totally ordered (C++ coherence)', 'value types: int, void, c01_mo (move-only), int& (reference), c01_cnt (instance-counted), c01_thr (constructor may throw) as defined in drivers/c01_types.cpp; instance counters < 10^6 (no wrap-around)', 'no exception is in flight / being handled when a resolver is called (cv_caught_n == 0 for the throwing-constructor units)'],
     explanation='see level_text')
